@@ -33,6 +33,9 @@ def run(prog, chk):
     all_boxes_combined(prog, chk)
     from props import C10
     C10.containment_every_target(prog, chk)  # every listed element contributes its box
+    C10.registration(prog, chk)  # ... its resolved box: a listed element that failed in this pass is not visible to later siblings
+    C10.registration_keys_agree(prog, chk)
+    C11.extraction_algebra(prog, chk)  # the box a listed circle / ellipse offers follows from r / rx / ry, not from a stray width / height
     from props import C08
     C08.degenerate_boxes(prog, chk)  # `inside`: an intersection of zero width / height is still a region
     inscribed_for_placed_shape(prog, chk)
